@@ -4,7 +4,7 @@
 set -u
 id="$1"; patch="$2"; demo="$3"; tier="${4:-quick}"
 export GOFLAGS=-mod=mod GOPROXY=off GOSUMDB=off GOTOOLCHAIN=local
-wt=/tmp/seed/$id
+wt=${SEED_DIR:-/tmp/seed}/$id
 git -C $wt checkout -q -- . 2>/dev/null; git -C $wt clean -fdq
 echo "== demo WITHOUT the change"
 ( cd "$demo" && (go test -count=1 ./... 2>&1 || true; if ls *.go 2>/dev/null | grep -qv _test.go; then go run . 2>&1; echo "run-exit=$?"; fi) ) | tail -6
